@@ -1168,6 +1168,12 @@ func (c *Conn) readHandshake(transcript transcriptHash) (interface{}, error) {
 			msgSeq := uint16(data[4])<<8 | uint16(data[5])
 			fb, exists := c.pendingFragments[msgSeq]
 			if !exists {
+				// 重组缓冲区的个数也要有上限：fragmentReads 只限制一次 readHandshake 调用，
+				// 而 pendingFragments 跨调用保留，对端可以用不断变化的 message_seq 让缓冲区无限增加。
+				if len(c.pendingFragments) >= maxHandshakeFragments {
+					c.sendAlertLocked(alertUnexpectedMessage)
+					return nil, c.in.setErrorLocked(errors.New("dtlcp: too many incomplete handshake messages"))
+				}
 				fb = newFragmentBuffer(uint24(bodyLen))
 				c.pendingFragments[msgSeq] = fb
 			}
